@@ -71,7 +71,7 @@ def h_standard(ctx: Any, code: str, n: int, depth: int, mode: str = 'T',
 
 
 def h_library_rake(ctx: Any, code: str, n: int, depth: int, percentage: float, cap: Any, stacks: Any,
-                   no_flop_no_drop: bool = False, deck: str = 'identity') -> None:
+                   no_flop_no_drop: bool = False, deck: str = 'identity', chips: str = 'int', boards: int = 1) -> None:
     """the library's own rake helper (percentage, cap, no-flop-no-drop) inside real hands: chips concrete, the
     first <depth> decisions symbolic (fold / call / min raise / max raise), conservation after every operation."""
     import warnings
@@ -82,17 +82,21 @@ def h_library_rake(ctx: Any, code: str, n: int, depth: int, percentage: float, c
     C.native_hands()
     C.set_deck_order(deck)
     warnings.simplefilter('ignore')
-    cfg: dict = dict(n=n, stacks=tuple(stacks), antes=1, mode=Mode.CASH_GAME,
-                     rake=partial(rake, percentage=percentage, cap=inf if cap is None else cap,
-                                  no_flop_no_drop=no_flop_no_drop))
+    from fractions import Fraction
+    conv = (lambda x: Fraction(x)) if chips == 'fraction' else (lambda x: x)
+    cfg: dict = dict(n=n, stacks=tuple(conv(x) for x in stacks), antes=conv(1), mode=Mode.CASH_GAME,
+                     starting_board_count=boards)
+    if percentage:
+        cfg['rake'] = partial(rake, percentage=percentage, cap=inf if cap is None else cap,
+                              no_flop_no_drop=no_flop_no_drop)
     if C.is_stud(code):
-        cfg.update(bring_in=1, small_bet=2, big_bet=4)
+        cfg.update(bring_in=conv(1), small_bet=conv(2), big_bet=conv(4))
     else:
-        cfg['blinds'] = (1, 2)
+        cfg['blinds'] = (conv(1), conv(2))
         if C.uses_small_big(code):
-            cfg.update(small_bet=2, big_bet=4)
+            cfg.update(small_bet=conv(2), big_bet=conv(4))
         else:
-            cfg['min_bet'] = 2
+            cfg['min_bet'] = conv(2)
     C.set_monitor(C.conservation_monitor(ctx))
     try:
         st = C.call(ctx, C.make_state, code, cfg)
@@ -121,6 +125,8 @@ def h_library_rake(ctx: Any, code: str, n: int, depth: int, percentage: float, c
         raked = sum(p.raked_amount for p in st.pots)
         if raked:
             ctx.cover('raked')
+        if any(getattr(x, 'denominator', 1) != 1 for x in st.stacks):
+            ctx.cover('fractional-share')
         if cap is not None and any(p.raked_amount == cap for p in st.pots):
             ctx.cover('cap-binds')
         ctx.cover('terminal')
@@ -135,7 +141,7 @@ def jobs(tier: str, seed: int) -> list[dict]:
     button = ['NT', 'FT', 'NS', 'PO', 'FO8', 'N2L1D', 'F2L3D', 'FB', 'NR']
     stud = ['F7S', 'F7S8', 'FR']
     mc = ['constructed', 'terminal']
-    B = 400 if tier == 'quick' else 1800
+    B = 520 if tier == 'quick' else 1800
     slow = {'PO': 9, 'NT': 8, 'NR': 8, 'FO8': 8, 'FT': 7}
     for code in button + stud:
         if code == 'NR' and tier == 'quick':
@@ -175,6 +181,16 @@ def jobs(tier: str, seed: int) -> list[dict]:
                      ('F7S/n2/10pct-cap1', dict(code='F7S', n=2, depth=3, percentage=0.1, cap=1, stacks=(40, 40)))):
         out.append(dict(name=f'd/library-rake/{name}', fn='h_library_rake', traced=False, params=dict(kw, deck=deck),
                         budget_s=B, must_cover=['terminal', 'raked'] + (['cap-binds'] if kw['cap'] else [])))
+    # Fraction chips (exact): pots split over two boards / ties leave fractional shares (non-integral divmod branch)
+    for name, kw in (('PO/n2/2boards', dict(code='PO', n=2, depth=3, percentage=0, cap=None, stacks=(51, 51), boards=2)),
+                     ('NT/n3/2boards', dict(code='NT', n=3, depth=2, percentage=0, cap=None, stacks=(51, 20, 51), boards=2)),
+                     ('FO8/n2', dict(code='FO8', n=2, depth=3, percentage=0, cap=None, stacks=(51, 51)))):
+        out.append(dict(name=f'e/fraction-chips/{name}', fn='h_library_rake', traced=False,
+                        params=dict(kw, deck=deck, chips='fraction'), budget_s=B, must_cover=['terminal']))
+    for dk in ('stride7', 'reversed', 'rot13'):
+        out.append(dict(name=f'e/fraction-chips/PO/n2/2boards/{dk}', fn='h_library_rake', traced=False,
+                        params=dict(code='PO', n=2, depth=2, percentage=0, cap=None, stacks=(51, 51), boards=2, deck=dk,
+                                    chips='fraction'), budget_s=B, must_cover=['terminal']))
     for trim in ((False,) if tier == 'quick' else (True, False)):
         for k, part in enumerate(product(tri('ante0', 'ante1'), tri('s0', 's1'))):
             out.append(dict(name=f'b/NT/n2/d0/perplayer-antes/trim{int(trim)}/p{k}', fn='h_standard',
